@@ -397,42 +397,78 @@ func (c progCase) run(shared *genesis) progResult {
 	return res
 }
 
-// minimise: prefer one block, prefer the plain deployment, then drop snippets greedily (left to right, to a
-// fixpoint), then drop trailing transactions. Deterministic function of the input case.
-func (c progCase) minimise(shared *genesis) (progCase, progResult) {
+// minimise brings a diverging case into a canonical small form (deterministic function of the input):
+// prefer one block, prefer the plain deployment, drop snippets greedily (left to right, to a fixpoint),
+// replace a snippet by the first snippet preceding it in the grammar for which the case still diverges in
+// the same field; transactions after the first disagreement are dropped.
+func (c progCase) minimise(shared *genesis, memo map[string]string) (progCase, progResult) {
 	cur := c
+	cur.Txs = 3
 	best := cur.run(shared)
-	try := func(cand progCase) bool {
-		r := cand.run(shared)
-		if r.diffs == nil {
+	bestField := best.diffs[0].Getter
+	// memo: candidate -> first differing field ("" = the back-ends agree); candidates repeat a lot
+	try := func(cand progCase, sameField bool) bool {
+		cand.Txs = 3
+		key := strings.Join(cand.Snippets, "+") + "|" + cand.Deploy + "|" + cand.Blocks
+		if f, ok := memo[key]; ok && (f == "" || sameField && f != bestField) {
 			return false
 		}
-		cand.Txs = r.tx
-		cur, best = cand, r
+		r := cand.run(shared)
+		if r.diffs == nil {
+			memo[key] = ""
+			return false
+		}
+		memo[key] = r.diffs[0].Getter
+		if sameField && r.diffs[0].Getter != bestField {
+			return false
+		}
+		cur, best, bestField = cand, r, r.diffs[0].Getter
 		return true
 	}
-	cur.Txs = best.tx
 	if cur.Blocks == "split" {
 		cand := cur
 		cand.Blocks = "same"
-		try(cand)
+		try(cand, false)
 	}
 	if cur.Deploy == "ctor" {
 		cand := cur
 		cand.Deploy = "plain"
-		try(cand)
+		try(cand, false)
 	}
-	for changed := true; changed; {
-		changed = false
-		for i := 0; i < len(cur.Snippets); i++ {
-			cand := cur
-			cand.Snippets = append(append([]string(nil), cur.Snippets[:i]...), cur.Snippets[i+1:]...)
-			if try(cand) {
-				changed = true
-				i--
+	removal := func() {
+		for changed := true; changed; {
+			changed = false
+			for i := 0; i < len(cur.Snippets); i++ {
+				cand := cur
+				cand.Snippets = append(append([]string(nil), cur.Snippets[:i]...), cur.Snippets[i+1:]...)
+				if try(cand, false) {
+					changed = true
+					i--
+				}
 			}
 		}
 	}
+	removal()
+	for rounds := 0; rounds < 32; rounds++ {
+		replaced := false
+	positions:
+		for i, name := range cur.Snippets {
+			for k := 0; k < snippetIndex(name); k++ {
+				cand := cur
+				cand.Snippets = append([]string(nil), cur.Snippets...)
+				cand.Snippets[i] = snippets[k].Name
+				if try(cand, true) {
+					replaced = true
+					break positions
+				}
+			}
+		}
+		if !replaced {
+			break
+		}
+		removal()
+	}
+	cur.Txs = best.tx
 	return cur, best
 }
 
@@ -493,8 +529,8 @@ func progLess(a, b progCase) bool {
 	return strings.Join(a.Snippets, "+") < strings.Join(b.Snippets, "+")
 }
 
-func (e *progEngine) record(shared *genesis, c progCase) {
-	min, res := c.minimise(shared)
+func (e *progEngine) record(shared *genesis, memo map[string]string, c progCase) {
+	min, res := c.minimise(shared, memo)
 	sig := progSignature(min, res.diffs)
 	e.mu.Lock()
 	defer e.mu.Unlock()
@@ -527,6 +563,7 @@ func (e *progEngine) enumerate(n int) bool {
 			if err != nil {
 				panic(err)
 			}
+			memo := map[string]string{}
 			for {
 				j := atomic.AddInt64(&idx, 1)
 				if j >= int64(total) {
@@ -564,7 +601,7 @@ func (e *progEngine) enumerate(n int) bool {
 						}
 						if res.diffs != nil {
 							atomic.AddInt64(&st.diverged, 1)
-							e.record(shared, c)
+							e.record(shared, memo, c)
 							continue
 						}
 						st.finalStates.add(res.finalDigest)
